@@ -145,6 +145,21 @@ def step (s : DState) (line : String) : DState × String :=
     match parseOrder o, n.toNat? with
     | some o, some n => (s, "wr " ++ showOrder (o.withReduced n))
     | _, _ => bad s line
+  | ["ri", o, n] =>
+    match parseOrder o, n.toNat? with
+    | some o, some n => let r := o.refresh n; (s, "ri " ++ showOrder r.1 ++ " used=" ++ toString r.2)
+    | _, _ => bad s line
+  | ["judge.C05r", o, n, r, used] =>
+    match parseOrder o, n.toNat?, parseOrder r, used.toNat? with
+    | some o, some n, some r, some used =>
+      (s, if C05.refreshOk o n r used then "J C05 ok" else "J C05 bad refresh-rule")
+    | _, _, _, _ => bad s line
+  | ["tf", o, now, close] =>
+    match parseOrder o, now.toNat?, (if close == "-" then some none else close.toNat?.map some) with
+    | some o, some now, some close =>
+      (s, "tf imm=" ++ toString o.isImmediate ++ " fok=" ++ toString o.isFok ++ " po=" ++ toString o.isPostOnly ++
+        " hasexp=" ++ toString o.tif.hasExpiry ++ " exp=" ++ toString (o.tif.isExpired now close))
+    | _, _, _ => bad s line
   | ["judge.C05", o, q, c, u, hr, rem] =>
     match parseOrder o, q.toNat?, c.toNat?, parseOptOrder u, hr.toNat?, rem.toNat? with
     | some o, some q, some c, some u, some hr, some rem =>
